@@ -83,9 +83,6 @@ func checkC05(c *Ctx) {
 		var hs []*synHistory
 		for i, cs := range cases {
 			for _, in := range synInputs(rng, cs.G, c.pick(3, 4), c.pick(20, 100), c.pick(4, 16), false) {
-				if len(in) > 14 {
-					continue // resolved parsers of cyclic grammars may loop on long inputs
-				}
 				hs = append(hs, &synHistory{Case: cs, CaseIx: i, Inputs: []synInput{{Toks: in}}})
 			}
 		}
